@@ -328,7 +328,7 @@ class JnpInterpPlugin(PrimitiveLeafPlugin):
         x_dtype: np.dtype[Any] = np.dtype(getattr(x_var.aval, "dtype", np.float32))
         xp_dtype: np.dtype[Any] = np.dtype(getattr(xp_var.aval, "dtype", np.float32))
         fp_dtype: np.dtype[Any] = np.dtype(getattr(fp_var.aval, "dtype", out_dtype))
-        compare_dtype: np.dtype[Any] = np.promote_types(x_dtype, xp_dtype)
+        compare_dtype: np.dtype[Any] = np.dtype(jnp.promote_types(x_dtype, xp_dtype))
 
         x_val = ctx.get_value_for_var(x_var, name_hint=ctx.fresh_name("interp_x"))
         xp_val = ctx.get_value_for_var(xp_var, name_hint=ctx.fresh_name("interp_xp"))
